@@ -438,11 +438,12 @@ class WireMonitor(object):
     """per emitted datagram: C03 (ciphertext under the key, nonce uniqueness, no plaintext),
     C08c (ack fields), C09 (MTU bound), bookkeeping of emissions for C07/C09 conservation"""
 
-    def __init__(self, world, tap, report, check_nonce=True):
+    def __init__(self, world, tap, report, check_nonce=True, check_acks=True):
         self.world = world
         self.tap = tap
         self.report = report
         self.c = world.counters
+        self.check_acks = check_acks
         self.nonces = {}             # session key -> set of 12-byte nonces
         self.check_nonce = check_nonce
         self.msg_on_wire = {}        # (id(conn), msgseq) -> count of emissions
@@ -506,6 +507,8 @@ class WireMonitor(object):
         for s, t, p in dec.msgs:
             self.msg_on_wire[(id(conn), s)] = self.msg_on_wire.get((id(conn), s), 0) + 1
         # ---- C08c ack fields
+        if not self.check_acks:
+            return
         self.c.inc("wire_datagrams_checked")
         if e.acc_top is None:
             if dec.ack != 0 or dec.ack_bits != 0:
